@@ -103,6 +103,33 @@ def rule_B1(run, prog):
                                       for n in walk_no_nested(ent.node)), "op-current",
        "__enter__ must bring the operator to the current basis before diagonalising", ent)
 
+    # ---- the matrix pushed: eigenvectors from eigh of the operator's current data, on every path
+    # (eigh returns ascending eigenvalues; any other source - identity for an "already diagonal"
+    # operator, eig, a cached matrix - loses the ascending order or the current representation)
+    providers = []
+    for m_ in prog.modules.values():
+        for c_ in m_.classes.values():
+            if "get_diagonalization_matrix" in c_.methods:
+                providers.append(c_.methods["get_diagonalization_matrix"])
+    if not providers:
+        raise AnalysisError("no class defines get_diagonalization_matrix")
+    for g in providers:
+        body = [s_ for s_ in g.node.body if not (isinstance(s_, ast.Expr) and isinstance(s_.value, ast.Constant))]
+        gtx = [norm(s_) for s_ in body]
+        rets = [n for n in walk_no_nested(g.node) if isinstance(n, ast.Return)]
+        envd = None
+        for src in ("self._data", "self.data"):
+            envd, posd = pat.seq(gtx, ["$DD, $SS = numpy.linalg.eigh(%s)" % src, "return $SS"])
+            if envd is not None:
+                break
+        good = envd is not None and len(rets) == 1 and len(body) == 2
+        if not good and len(body) == 1 and len(rets) == 1:
+            good = gtx[0] in ("return numpy.linalg.eigh(self._data)[1]", "return numpy.linalg.eigh(self.data)[1]")
+        ob(g.short, good, "diagonaliser-is-eigh",
+           "the diagonalisation matrix must be, on every path, the eigenvector matrix returned by "
+           "numpy.linalg.eigh of the operator's data (ascending eigenvalues, current representation); found %d "
+           "return(s) in %d statement(s): %s" % (len(rets), len(body), gtx[:3]), g)
+
     # ---- set_new_basis: three pushes under a fresh id = current + 1
     stx = [norm(s) for s in _top_level(snb)]
     env, pos = pat.seq(stx, ["$NB = self.get_current_basis() + 1", "self.basis_stack.append($NB)"])
